@@ -99,6 +99,16 @@ def unvStep (height : Nat) (st : Pool H × CheckBlk H) (h : H) : Pool H × Check
 def getUnverified (p : Pool H) (txs : List H) (height : Nat) : Pool H × CheckBlk H :=
   txs.foldl (unvStep height) (p, ⟨[], [], []⟩)
 
+/-- specification of `GetUnverifiedTxs` for one hash, against the pool as it was when the call started -/
+def classify (height : Nat) (p : Pool H) (t : H) (r : CheckBlk H) : CheckBlk H :=
+  match find? p t with
+  | none => { r with unv := r.unv ++ [t] }
+  | some e =>
+    if !fresh height e then { r with old := r.old ++ [t] }
+    else match e.attrs.find? (fun a : Attr => a.stateful) with
+      | some a => { r with ver := r.ver ++ [(t, a.height, a.err)] }
+      | none => r
+
 /-- `Remain`: everything is returned (in iteration order) and the pool is emptied. -/
 def remain (_p : Pool H) (order : List (Entry H)) : Pool H × List H := ([], keys order)
 
